@@ -56,9 +56,9 @@ type concSim struct {
 	hist   []porcupine.Operation
 	shadow *World // generator aim only
 	// statistics
-	overlapSameHash bool
+	overlapSameHash      bool
 	faults, okAfterFault int
-	started         int
+	started              int
 }
 
 // hook is installed as the backend's transaction-entry yield point.
